@@ -4,7 +4,8 @@
    validated by suite P-uvl on every generated model (the real parser's tree is compared with
    [cst_of_fm m]); suite W-uvl ties [render (cst_of_fm m)] to the implementation's bytes. *)
 From Coq Require Import List Bool String ZArith.
-From FM Require Import Base.Result Model.Ast Model.FM Model.PFM Model.Sem Format.Uvl Proofs.UvlFacts.
+From FM Require Import Base.Result Model.Ast Model.FM Model.PFM Model.Sem Format.Uvl Model.PyRt Model.Loc Gen.Src_uvl
+     Proofs.UvlFacts Proofs.SrcUvlFacts.
 Import ListNotations.
 Local Open Scope list_scope.
 
@@ -57,3 +58,28 @@ Example C01_nonvacuous : uvl_ok ex_model = true /\ uvl_ok ex_model2 = true
   /\ exists d, cst_of_fm ex_model = Ok d /\ uvl_read_cst d = Ok (annotate_fm (uvl_norm ex_model)).
 Proof. exact (conj ex_model_ok (conj ex_model2_ok ex_model_roundtrip)). Qed.
 Print Assumptions C01_nonvacuous.
+
+(* ---- the writer half about the TRANSLATED SOURCE of uvl_writer.py (Gen/Src_uvl.v: the class UVLWriter as a state record with
+   transform(), read_features, read_attributes, serialize_value, serialize_relation, the constraint printer, safename — regenerated
+   on every run; DESIGN §10): whatever text the hand model writes, the translated transform() returns (for every large enough
+   fuel: the nesting of attribute values is unbounded). ---- *)
+Theorem C01_source_writer : forall path m t, uvl_write m = Ok t ->
+  exists n0, forall fuel, (n0 <= fuel)%nat -> py_UVLWriter_transform fuel (py_UVLWriter_new path m) = Ok t.
+Proof. exact src_uvl_transform. Qed.
+Print Assumptions C01_source_writer.
+
+Theorem C01_source_identifiers : forall s, py_safename s = uvl_safename s.
+Proof. exact src_uvl_safename. Qed.
+Print Assumptions C01_source_identifiers.
+
+(* the round trip of the translated writer, for any parser that inverts the rendering on writer output *)
+Theorem C01_source_roundtrip : forall (antlr : string -> option udoc),
+  (forall m d, uvl_ok m = true -> cst_of_fm m = Ok d -> antlr (render d) = Some d) ->
+  forall path m, uvl_ok m = true ->
+  exists t pm n0, (forall fuel, (n0 <= fuel)%nat -> py_UVLWriter_transform fuel (py_UVLWriter_new path m) = Ok t)
+                  /\ uvl_read antlr t = Ok pm /\ erase_fm pm = uvl_norm m.
+Proof.
+  intros antlr Hp path m Hok. destruct (uvl_roundtrip antlr Hp m Hok) as (t & pm & Hw & Hr & He).
+  destruct (src_uvl_transform path m t Hw) as (n0 & Hn). exists t, pm, n0. exact (conj Hn (conj Hr He)).
+Qed.
+Print Assumptions C01_source_roundtrip.
